@@ -187,7 +187,9 @@ impl Prop for C06 {
         if o.failure.is_none() && crate::runner::digest(format!("{:?}", st.name).as_bytes()) % 400 == 0 {
             let st2 = st.clone();
             let make = move || Box::new(U2Server::from_state(&st2)) as Box<dyn crate::wire::Responder>;
-            crate::realnet::fidelity("C06", gamedig::verif_hook::Proto::Udp, make, &run, 250, |a, t| unreal2::query(&a, &gather, t), &FIDELITY);
+            if let Some(real) = crate::realnet::fidelity("C06", gamedig::verif_hook::Proto::Udp, make, &run, 250, |a, t| unreal2::query(&a, &gather, t), &FIDELITY) {
+                o.fail(format!("C06|real sockets|C06|differs from the scripted transport|{real}"), serde_json::json!({"over_real_loopback_sockets": real, "scripted_transport": "Ok (equal to the reference value)"}));
+            }
         }
         o
     }
